@@ -198,21 +198,8 @@ Proof.
       * exact IH.
 Qed.
 
-Definition key_eqb (a b : startup_key) : bool := bytes_eqb (key_bytes a) (key_bytes b).
 Lemma key_eqb_spec a b : key_eqb a b = true <-> a = b.
 Proof. split; [|intros ->; apply bytes_eqb_refl]. destruct a, b; vm_compute; intro H; try reflexivity; discriminate H. Qed.
-
-(* the observation of a STARTUP message through its getters *)
-Definition observe (m : list (bytes * bytes)) (k : startup_key) : bytes :=
-  match k with
-  | KCompression => startup_get_compression m
-  | KThrowOnOverload => if startup_is_throw m then [49] else []
-  | _ => startup_get m k
-  end.
-(* what a setter call stores, as seen through the matching getter *)
-Definition stored (op : sop) : bytes :=
-  match op with SSet _ v => v | SSetCompression c => c | SSetThrow b => if b then [49] else [] end.
-Definition sop_wf (op : sop) : bool := match op with SSet k _ => plain_key k | _ => true end.
 
 Theorem startup_accessor_step m op k : sop_wf op = true ->
   observe (apply_sop m op) k = if key_eqb k (sop_key op) then stored op else observe m k.
